@@ -9,7 +9,7 @@ reported (E100/E101) and the RDH is still delivered (R18.2); the first bytes
 of the input are read with error propagation (F2 repaired) (R18.1).
 Not decided: equality of findings on the intact prefix (a runtime comparison)."""
 from ..mir import callee_of, origin_calls, show_origin
-from ..thir import Evaluator
+from ..thir import Evaluator, Agg, Sym, Unsupported, vkey
 from ..facts import where
 from . import c03
 
@@ -82,6 +82,25 @@ def run(ctx, rep):
     gb = AP + "get_array_batch"
     tb = ev.tb(gb)
     if tb:
+        # the guard of each `Err(e) if …` arm is evaluated (local predicate helpers inlined) to the set of
+        # io::ErrorKind values it accepts: a pure disjunction of `e.kind() == ErrorKind::X`
+        def kinds_of(c):
+            from ..thir import Cond as _C, Agg as _A
+            if isinstance(c, _C) and c.op == "cmp" and c.a[0] == "Eq":
+                for x, y in ((c.a[1], c.a[2]), (c.a[2], c.a[1])):
+                    if isinstance(y, _A) and y.adt.endswith("ErrorKind") and "kind" in vkey(x):
+                        return {y.var}
+                return None
+            if isinstance(c, _C) and c.op == "or":
+                out_ = set()
+                for x in c.a:
+                    k_ = kinds_of(x)
+                    if k_ is None:
+                        return None
+                    out_ |= k_
+                return out_
+            return None
+
         arms = []
         for i, nd in tb.walk():
             if nd["k"] == "Match":
@@ -91,14 +110,18 @@ def run(ctx, rep):
                     if pat["k"] == "Variant" and pat["vname"] == "Err":
                         kinds = []
                         if arm.get("guard") is not None:
-                            kinds = [x.get("vname") for _, x in tb.walk(arm["guard"]) if x["k"] == "Adt" and x.get("adt", "").endswith("ErrorKind")]
-                            gi, gn = tb.e(arm["guard"])
-                            if gn["k"] == "Logical" or any(x["k"] == "Logical" for _, x in tb.walk(arm["guard"])):
-                                kinds.append("+extra-condition")
-                        bi, bn = tb.e(arm["body"])
+                            env_ = {}
+                            ev.bind(pat, Agg("core::result::Result", "Err", {"0": Sym("e")}), env_)
+                            try:
+                                gc = ev.as_cond(ev.eval(tb, arm["guard"], env_, 0))
+                                ks = kinds_of(gc)
+                            except Unsupported:
+                                ks = None
+                            kinds = sorted(ks) if ks is not None else ["+extra-condition"]
                         body_kinds = {x["k"] for _, x in tb.walk(arm["body"])}
                         act = "break" if "Break" in body_kinds else ("return" if "Return" in body_kinds else "other")
-                        arms.append((tuple(kinds), act))
+                        for k_ in kinds or [None]:
+                            arms.append(((k_,) if k_ else (), act))
         want = {(("InvalidData",), "break"), (("UnexpectedEof",), "break")}
         rep.check(want <= set(arms) and ((), "return") in arms, "R18.2", "R18.2|builder|eof_breaks", "get_array_batch: InvalidData / UnexpectedEof keep the partial batch, other errors are returned", gb,
                   "error arms of the batch builder are %s" % arms)
